@@ -10,6 +10,8 @@ from .symex import Raise, dotted
 from .base import qforall
 
 
+STR_FORMAT = z3.Function("str_format", I, SeqI, I)  # (template, arguments) -> the formatted string
+STR_JOIN = z3.Function("str_join", I, SeqI, I)  # (separator, pieces) -> the joined string
 FIDX = z3.Function("ghost_filter_src_index", SeqI, I, I, I)  # (source value, comprehension id, result index) -> source index
 RIDX = z3.Function("ghost_filter_res_index", SeqI, I, I, I)  # (source value, comprehension id, source index) -> result index
 
@@ -195,6 +197,19 @@ class CallMixin:
         f = z3.Function("issubclass", I, I, B)
         return [(st, vbool(f(self.to_ref(st, args[0]), self.to_ref(st, args[1]))))]
 
+    def b_range(self, ex, st, node, args, kwargs):
+        ints = [self.to_int(st, a) for a in args]
+        if len(ints) == 1:
+            ints = [z3.IntVal(0), ints[0], z3.IntVal(1)]
+        elif len(ints) == 2:
+            ints = ints + [z3.IntVal(1)]
+        if not (z3.is_int_value(z3.simplify(ints[2])) and z3.simplify(ints[2]).as_long() in (1, -1)):
+            raise Unsupported("range with a step other than 1 / -1")
+        return [(st, V("static", None, Marker("range", tuple(ints))))]
+
+    def b_zip(self, ex, st, node, args, kwargs):
+        return [(st, V("static", None, Marker("zip", list(args))))]
+
     def b_callable(self, ex, st, node, args, kwargs):
         f = z3.Function("builtin_callable", I, B)  # a pure predicate of the object
         return [(st, vbool(f(self.to_ref(st, args[0]))))]
@@ -209,9 +224,22 @@ class CallMixin:
 
     # -- methods of containers and strings --------------------------------------------------------------------
     def m_format(self, st, node, recv, args, kwargs):
+        """str.format: a deterministic function of the template and the arguments (formatting a user object calls its
+        __str__/__repr__/__format__: assumed pure here, listed)."""
+        if recv.kind in ("str", "ref") and not kwargs and all(a.kind in ("ref", "str", "int", "bool") for a in args):
+            seq = z3.Empty(SeqI)
+            for a in args:
+                seq = z3.Concat(seq, z3.Unit(self.to_ref(st, a)))
+            r = STR_FORMAT(self.to_ref(st, recv), seq)
+            st.assume(TY(r) == T_STR, r != NONE)
+            return [(st, V("ref", r, "opaque_str"))]
         return [(st, self.opaque_str(st))]
 
     def m_join(self, st, node, recv, args, kwargs):
+        if recv.kind in ("str", "ref") and len(args) == 1 and args[0].kind == "ref" and args[0].py in ("list", "tuple"):
+            r = STR_JOIN(self.to_ref(st, recv), st.get("list", args[0].t))
+            st.assume(TY(r) == T_STR, r != NONE)
+            return [(st, V("ref", r, "opaque_str"))]
         return [(st, self.opaque_str(st))]
 
     def m_append(self, st, node, recv, args, kwargs):
@@ -248,6 +276,23 @@ class CallMixin:
             else:
                 out.append((s, Raise(self.new_exception(s, "ValueError"))))
         return out
+
+    def m_copy(self, st, node, recv, args, kwargs):
+        if recv.py == "dict":
+            return [(st, self.new_dict(st, dom=st.get("ddom", recv.t), val=st.get("dval", recv.t), order=st.get("dord", recv.t)))]
+        raise Unsupported(".copy() of %r" % (recv,))
+
+    def m_pop(self, st, node, recv, args, kwargs):
+        """dict.pop(key, default): removes the key if present (the returned value is not used by the callers modelled)."""
+        if recv.py == "dict" and len(args) == 2:
+            k = self.to_ref(st, args[0])
+            d = recv.t
+            had = z3.Select(st.get("ddom", d), k)
+            old = z3.Select(st.get("dval", d), k)
+            st.put("ddom", d, z3.Store(st.get("ddom", d), k, z3.BoolVal(False)))
+            st.put("dord", d, fresh("dord_after_pop", SeqI))
+            return [(st, V("ref", z3.If(had, old, self.to_ref(st, args[1]))))]
+        raise Unsupported(".pop on %r" % (recv,))
 
     def m_items(self, st, node, recv, args, kwargs):
         return [(st, V("ref", recv.t, "dict_items"))]
